@@ -277,4 +277,18 @@ def run(ck):
     shared.truthy_zero(ck, ['vermouth/molecule.py', 'vermouth/gmx/itp.py', 'vermouth/gmx/topology.py', 'vermouth/pdb/pdb.py', 'vermouth/processors/name_moltype.py',
                            'vermouth/processors/sort_molecule_atoms.py'])
     shared.sorted_nodes_rule(ck, 'SIB-atom-order')
+    shared.runs_every_molecule(ck, 'vermouth/processors/sort_molecule_atoms.py', 'SortMoleculeAtoms', 'MPT-every-molecule')
+    # both output files are written from the same state of the system: every step that changes molecules comes before the first writer
+    cli_ = ck.index.mod('bin/martinize2')
+    ent_ = cli_.func('entry')
+    ck.analysed(cli_, ent_)
+    writers = [c for c in walk_local(ent_) if isinstance(c, ast.Call) and call_name(c) in ('write_gmx_topology', 'vermouth.pdb.write_pdb', 'write_pdb', 'vermouth.gmx.gro.write_gro', 'write_gro')]
+    changers = [c for c in walk_local(ent_) if isinstance(c, ast.Call) and (call_attr(c) == 'run_system' or call_name(c) in ('nx.set_node_attributes', 'martinize', 'pdb_to_universal') or
+                                                                          call_attr(c) in ('add_node', 'remove_node', 'add_interaction', 'remove_nodes_from', 'merge_molecule'))]
+    stores = [n for n in walk_local(ent_) if isinstance(n, (ast.Subscript, ast.Attribute)) and isinstance(n.ctx, ast.Store) and ('molecule' in u(n) or 'system' in u(n))]
+    first = min((c.lineno for c in writers), default=None)
+    late = [u(c)[:60] for c in changers if first is not None and c.lineno > first and not (call_attr(c) == 'run_system' and 'Quoter' in u(c))] + \
+        [u(n)[:60] for n in stores if first is not None and n.lineno > first]
+    ck.ob('SIB-atom-order', cli_.loc(ent_), len(writers) >= 2 and not late, 'topology and coordinates are written from the same state: no processor run, attribute assignment or edit of the '
+          'system happens after the first output writer ({} writer call(s); late: {})'.format(len(writers), late), key='SIB-atom-order|writers-same-state')
     ck.assume('file contents are not decided; equal topologies are assumed to print equal text')
